@@ -13,6 +13,24 @@ import builtins
 
 _SKIP_FIELDS = {"ctx", "lineno", "col_offset", "end_lineno", "end_col_offset", "type_comment", "kind"}
 
+# every failed template match is logged with the best similarity found (share of the template's nodes that do match at the
+# closest candidate); the report uses it to tell a deviation from a recognised idiom (near miss) from an unrecognised shape
+MISS_LOG: list = []
+
+
+def take_misses():
+    out = list(MISS_LOG)
+    MISS_LOG.clear()
+    return out
+
+
+def _size(t):
+    if isinstance(t, list):
+        return sum(_size(x) for x in t)
+    if isinstance(t, ast.AST):
+        return 1 + sum(_size(getattr(t, f, None)) for f in t._fields if f not in _SKIP_FIELDS)
+    return 1 if t is not None else 0
+
 
 def _locals_of(fnode):
     names = set()
@@ -76,8 +94,10 @@ class AM:
         t = self._cache.get(template)
         if t is None:
             mod = ast.parse(template)
-            from .normalize import _n2, _n4
+            from .normalize import _n2, _n4, _n5
             _n2(mod)
+            mod = _n5(mod)
+            ast.fix_missing_locations(mod)
             _n4(mod)
             if len(mod.body) == 1 and isinstance(mod.body[0], ast.Expr):
                 t = mod.body[0].value
@@ -150,6 +170,47 @@ class AM:
             return True
         return t == a
 
+    # -- similarity (for diagnostics and for the near-miss / unrecognised distinction) ------------------------------
+    def _score(self, t, a, b):
+        """Number of template nodes that match at `a` (top-down, positional)."""
+        if isinstance(t, list):
+            if not isinstance(a, list):
+                return 0
+            return sum(self._score(x, y, b) for x, y in zip(t, a))
+        if isinstance(t, ast.AST):
+            if isinstance(t, ast.Name):
+                if t.id in self.lets:
+                    return max(self._score(self.lets[t.id], a, b), 1 if isinstance(a, ast.Name) else 0)
+                if isinstance(a, ast.Name):
+                    if self.is_placeholder(t.id):
+                        return 1 if b.get(t.id, a.id) == a.id else 0
+                    return 1 if t.id == a.id else 0
+                return 0
+            if type(t) is not type(a):
+                if isinstance(a, ast.Name) and a.id in self.single and isinstance(t, ast.expr):
+                    return self._score(t, self.single[a.id], b)
+                return 0
+            n = 1
+            for f in t._fields:
+                if f in _SKIP_FIELDS:
+                    continue
+                n += self._score(getattr(t, f, None), getattr(a, f, None), b)
+            return n
+        return 1 if (t == a and t is not None) else 0
+
+    def _log_miss(self, template_text, t, candidates):
+        tot = max(_size(t), 1)
+        best, where = 0, None
+        for c in candidates:
+            sc = self._score(t, c, dict(self.bind))
+            if sc > best:
+                best, where = sc, c
+        try:
+            txt = ast.unparse(where)[:120] if isinstance(where, ast.AST) else ""
+        except Exception:
+            txt = ""
+        MISS_LOG.append((best / tot, template_text if isinstance(template_text, str) else "<template>", txt))
+
     def eq(self, node, template):
         """node (AST or list of statements) matches template under the current binding; commits new bindings."""
         t = self.parse(template) if isinstance(template, str) else template
@@ -163,20 +224,21 @@ class AM:
         if self._m(t, node, b):
             self.bind = b
             return True
+        self._log_miss(template, t, [node])
         return False
 
     def eq_block(self, stmts, templates):
         """Statement list equals the list of templates (in order)."""
-        if len(stmts) != len(templates):
+        ts = [self.parse(tpl) for tpl in templates]
+        if len(stmts) != len(templates) or any(isinstance(t, list) for t in ts):
+            self._log_miss(" ; ".join(templates), [t for t in ts if not isinstance(t, list)], [[(s.value if isinstance(s, ast.Expr) and isinstance(t, ast.expr) else s) for s, t in zip(stmts, ts)]])
             return False
         b = dict(self.bind)
-        for s, tpl in zip(stmts, templates):
-            t = self.parse(tpl)
-            if isinstance(t, list):
-                return False
+        for s, t in zip(stmts, ts):
             if isinstance(s, ast.Expr) and isinstance(t, ast.expr):
                 s = s.value
             if not self._m(t, s, b):
+                self._log_miss(" ; ".join(templates), ts, [[(x.value if isinstance(x, ast.Expr) and isinstance(y, ast.expr) else x) for x, y in zip(stmts, ts)]])
                 return False
         self.bind = b
         return True
@@ -184,11 +246,13 @@ class AM:
     def find(self, nodes, template):
         """First node in `nodes` (iterable of AST nodes) matching the template; commits the binding."""
         t = self.parse(template)
+        nodes = list(nodes)
         for n in nodes:
             b = dict(self.bind)
             if self._m(t, n, b):
                 self.bind = b
                 return n
+        self._log_miss(template, t, nodes)
         return None
 
     def find_all(self, nodes, template):
@@ -204,6 +268,7 @@ class AM:
         """Some sub-node of root (statement or expression) matches the template."""
         t = self.parse(template)
         typ = type(t) if not isinstance(t, list) else None
+        cands = []
         for n in ast.walk(root) if isinstance(root, ast.AST) else (x for r in root for x in ast.walk(r)):
             if typ is not None and type(n) is not typ:
                 continue
@@ -211,6 +276,8 @@ class AM:
             if self._m(t, n, b):
                 self.bind = b
                 return n
+            cands.append(n)
+        self._log_miss(template, t, cands)
         return None
 
     def actual(self, placeholder):
